@@ -46,7 +46,10 @@ let () =
              | ["none"] -> BindNone
              | _ -> failwith "bind" in
            let specs = if g "pools" = "-" then [] else List.map (nats '.') (String.split_on_char ';' (g "pools")) in
-           (match startup topo b use pm n n specs with
+           (* --pika:cores (max_cores): defaults to the thread count *)
+           let mc = match List.assoc_opt "cores" kv with
+             | Some c -> nat_of_int (int_of_string c) | None -> n in
+           (match startup topo b use pm n mc specs with
             | Err e -> Printf.printf "OUT BIND %s err=%s\n" id (err_name e)
             | Ok st ->
               let ws = st.st_workers in
